@@ -308,10 +308,32 @@ func c10Gen(t *rapid.T) MetricCase {
 		outer.GroupingFirst = rapid.Bool().Draw(t, "grouping-first2")
 		top = outer
 	}
+	nestedBy := false
+	if len(d.GroupLabels) >= 2 && rapid.IntRange(0, 5).Draw(t, "by-over-by") == 0 {
+		// by over by on a grid whose windows overlap: the outer clause keeps the label that sorts
+		// last of those the inner one keeps; a series of the inner level lives on from step to step.
+		labels := append([]string(nil), d.GroupLabels...)
+		sortStringsT(labels)
+		inner := &gen.Metric{Kind: "vecagg", Op: "sum", Inner: m, Grouping: &gen.Grouping{Labels: labels}, GroupingFirst: rapid.Bool().Draw(t, "bob-first")}
+		if m.Grouping != nil {
+			m.Grouping = nil
+		}
+		top = &gen.Metric{Kind: "vecagg", Op: rapid.SampledFrom([]string{"sum", "max", "count"}).Draw(t, "bob-op"), Inner: inner,
+			Grouping: &gen.Grouping{Labels: labels[len(labels)-1:]}, GroupingFirst: rapid.Bool().Draw(t, "bob-first2")}
+		nestedBy = true
+	}
 	c.Recs = d.Recs
 	c.M = *top
 	c.Text = gen.PrintMetric(top, datagen.RapidLayout{T: t})
-	if rapid.IntRange(0, 3).Draw(t, "instant") == 0 {
+	if nestedBy {
+		c.Params = datagen.GenGrid(t, c.Recs, 16)
+		if c.Params.Step > m.RangeNs/2 && m.RangeNs >= 2*datagen.Tick {
+			c.Params.Step = m.RangeNs / 2 / datagen.Tick * datagen.Tick // overlapping windows
+			if n := (c.Params.End - c.Params.Start) / c.Params.Step; n > 40 {
+				c.Params.End = c.Params.Start + 40*c.Params.Step
+			}
+		}
+	} else if rapid.IntRange(0, 3).Draw(t, "instant") == 0 {
 		g := datagen.GenGrid(t, c.Recs, 10)
 		steps := g.Steps()
 		at := steps[len(steps)/2]
